@@ -29,7 +29,7 @@ EXPLANATION = ('Borrow discipline decided structurally: a compile-fail witness t
                'allocator-assigned field and that every function-local allocation reaches a release/hand-over on every non-exempt '
                'path (this covers the failed-gr_make_face exits); the C09 rules that the lazy table users are dead after preloadAll.  '
                'Allocator balance as a number is NOT decided.')
-FLOORS = {'NOESCAPE': 60, 'WIT': 3, 'TABLETS': 9, 'NOCALLBACK': 4, 'OWNFIELD': 40, 'OWNLOCAL': 12, 'PRELOAD': 2, 'NAMEPRELOAD': 2}
+FLOORS = {'NOESCAPE': 60, 'WIT': 3, 'TABLETS': 11, 'NOCALLBACK': 4, 'OWNFIELD': 40, 'OWNLOCAL': 12, 'PRELOAD': 2, 'NAMEPRELOAD': 2}
 
 ALLOC_FNS = ('graphite2::gralloc', 'graphite2::grzeroalloc', 'malloc', 'calloc', 'realloc')
 
@@ -108,6 +108,34 @@ def flagpair(run, fx):
                 run.held('TABLETS', inst, fn.loc(s_), 'no release() between this store and the next store of _p')
     if n < 1:
         run.broken('TABLETS', 'flag and pointer change together', 'no store to Face::Table::_compressed found outside initialisers', '')
+    # a held buffer is dropped only through release(): Face::Table::decompress replaces _p -- every store to _p there comes after release()
+    dc = fx.one(T + '::decompress')
+    rels = calls_in(dc, T + '::release')
+    ps = [e for _, e in dc.elements() if e['k'] == 'BinaryOperator' and e['op'] == '=' and dc.strip(e['c'][0]).get('d') == T + '::_p']
+    relb = {dc.block_of[r['i']] for r in rels}
+    if not ps or not rels:
+        run.broken('TABLETS', 'decompress drops the compressed buffer only through release()', 'stores to _p / release() calls not found in decompress', dc.where())
+    for e in ps:
+        inst = 'decompress drops the compressed buffer only through release() @%s' % e['ln']
+        seen, st, hit = set(), [dc.entry], False
+        tb = dc.block_of[e['i']]
+        while st:
+            b = st.pop()
+            if b in seen:
+                continue
+            seen.add(b)
+            if b == tb:
+                if not (b in relb and any(dc.pos_of[r['i']] < dc.pos_of[e['i']] for r in rels if dc.block_of[r['i']] == b)):
+                    hit = True
+                    break
+                continue
+            if b in relb:
+                continue
+            st.extend(x for x in dc.succs(b) if x is not None)
+        if hit:
+            run.violated('TABLETS', inst, dc.loc(e), '`%s` can be reached without release() having run: the table obtained from get_table is forgotten, never handed back through release_table' % dc.render(e))
+        else:
+            run.held('TABLETS', inst, dc.loc(e), 'every path to this store passes release()')
 
 
 def tablets(run, fx):
@@ -454,6 +482,80 @@ def overwrite(run, fx):
     return n
 
 
+def reallocfail(run, fx):
+    """OWNFIELD: realloc returns null and leaves the old block alive when it fails (or, in Pass::readRules, the `: 0` arm of the
+    conditional takes its place).  For every realloc in src/: the result is tested for null, and on the null arm every path to the
+    function's exit frees the OLD block -- through the argument itself when the result went somewhere else, or through a local that
+    was set to it before the call -- or does not return at all (abort).  Writing the result straight over the only pointer to the
+    block and returning on null leaks the block on a failed load."""
+    n = 0
+    for fn in fx.all_fns():
+        if not fn.file.startswith('src/') or fn.f.get('implicit'):
+            continue
+        for r in calls_in(fn, 'realloc'):
+            if not r.get('args'):
+                continue
+            n += 1
+            P = fn.render(fn.strip_all_casts(fn.N(r['args'][0])))
+            inst = 'a failed realloc in %s @%s frees the old block' % (fn.q.split('graphite2::')[-1].split('<')[0], r['ln'])
+            # where the result goes: the enclosing declaration or assignment
+            D = None
+            for _, e in fn.elements():
+                if e['k'] == 'DeclStmt':
+                    for x in e.get('decls', []):
+                        if x.get('init') is not None and any(w.get('i') == r['i'] for w in fn.walk(x['init'])):
+                            D = x.get('n')
+                elif e['k'] == 'BinaryOperator' and e['op'] == '=' and any(w.get('i') == r['i'] for w in fn.walk(e['c'][1])):
+                    D = fn.render(fn.strip(e['c'][0]))
+            if D is None:
+                run.broken('OWNFIELD', inst, 'the destination of the realloc result was not recognised', fn.loc(r))
+                continue
+            old = set()
+            if D != P:
+                old.add(P)
+            doms = fn.dominators()
+            for _, e in fn.elements():
+                if e['k'] == 'DeclStmt' and (fn.block_of[e['i']] in doms[fn.block_of[r['i']]]):
+                    for x in e.get('decls', []):
+                        if x.get('init') is not None and fn.render(fn.strip_all_casts(fn.N(x['init']))) == P and \
+                                (fn.block_of[e['i']] != fn.block_of[r['i']] or fn.pos_of[e['i']] < fn.pos_of[r['i']]):
+                            old.add(x.get('n'))
+            nulls = dom.edges_with(fn, lambda f: f[0] == D and f[1] == '==' and f[2] == '0')
+            reach = fn.reachable_from(fn.block_of[r['i']]) | {fn.block_of[r['i']]}
+            nulls = [(b, i_) for b, i_ in nulls if b in reach]
+            if not nulls:
+                run.violated('OWNFIELD', inst, fn.loc(r), 'the result of realloc (`%s`) is never tested for null in %s' % (D, fn.q))
+                continue
+            frees = {fn.block_of[e['i']] for e in calls_in(fn, 'free') if e.get('args') and fn.render(fn.strip_all_casts(fn.N(e['args'][0]))) in old}
+            frees |= {fn.block_of[e['i']] for _, e in fn.elements() if e['k'] in CALL_KINDS and (e.get('fq') or '').split('::')[-1] == 'abort'}
+            nonnull = set(dom.edges_with(fn, lambda f: f[0] == D and f[1] == '!=' and f[2] == '0'))
+            nullset = set(nulls)
+            # walk from the call: the non-null arms are the success paths; a path that took a null arm must free before the exit
+            bad, seen, st = [], set(), [(fn.block_of[r['i']], False)]
+            while st:
+                b, onnull = st.pop()
+                if (b, onnull) in seen:
+                    continue
+                seen.add((b, onnull))
+                if b in frees and (onnull or b != fn.block_of[r['i']]):
+                    continue
+                if b == fn.exit or not [x for x in fn.blocks[b]['succ'] if x is not None]:
+                    if onnull:
+                        bad.append((b, 0))
+                    continue
+                for i_, s_ in enumerate(fn.blocks[b]['succ']):
+                    if s_ is None or (b, i_) in nonnull:
+                        continue
+                    st.append((s_, onnull or (b, i_) in nullset))
+            if bad:
+                run.violated('OWNFIELD', inst, fn.loc(r), 'when `%s` is null after `%s`, a path reaches the end of %s without freeing the old block (%s): realloc leaves it allocated when it '
+                             'fails, and nothing points to it any more' % (D, fn.render(r)[:60], fn.q, ' / '.join(sorted(old)) or 'no name for it is left: the result overwrote `%s`' % P))
+            else:
+                run.held('OWNFIELD', inst, fn.loc(r), 'null result -> %s on every path' % ('free(%s)' % '/'.join(sorted(old)) if old else 'abort'))
+    if n < 3:
+        run.broken('OWNFIELD', 'failed realloc frees the old block', 'expected the 3 realloc sites (Code::Code, Pass::readRules, Vector::reserve), found %d' % n)
+
+
 def poolhead(run, fx):
     """OWNFIELD for the preloaded glyph and box pools: ~GlyphCache releases element 0 of `_glyphs` / `_boxes` when the loader is gone
     (the element points at the whole pool).  So wherever the constructor gives a pool up itself (`delete [] glyphs`, `free(boxes)` on a
@@ -506,6 +608,7 @@ def poolhead(run, fx):
 
 def freenull(run, fx):
     poolhead(run, fx)
+    reallocfail(run, fx)
     """OWNFIELD, third part: a member function other than the destructor that frees one of the object's own buffers leaves the field
     pointing somewhere else (null, or a replacement) on every path to its exit.  Such functions run while the object lives on --
     Silf::releaseBuffers runs on the reject path of readGraphite AND again from ~Silf, Face::Table::release from every owner -- so a
@@ -576,6 +679,31 @@ def _alloc_failure_blocks(fn):
     fn.__dict__['_alloc_fail_edges'] = dom.edges_with(fn, lambda f: f[0] in names and f[1] == '==' and f[2] == '0')
     return out
 
+def released_fields(fx):
+    """qualified names of the fields that some function releases (delete / free / a release call on the member itself): a pointer stored
+    into any other field is only borrowed (Face::m_appFaceHandle is the application's handle; Face::m_pFileFace is deleted by ~Face)"""
+    if hasattr(fx, '_released_fields'):
+        return fx._released_fields
+    out = set()
+    for fn in fx.all_fns():
+        if not fn.file.startswith('src/'):
+            continue
+        for _, e in fn.elements():
+            a = None
+            if e['k'] == 'CXXDeleteExpr' and e.get('c'):
+                a = e['c'][0]
+            elif e['k'] in CALL_KINDS and (e.get('fq') or '').split('::')[-1] in ('free', 'fclose', 'realloc') and e.get('args'):
+                a = e['args'][0]
+            if a is None:
+                continue
+            for x in fn.walk(a):
+                if x['k'] == 'MemberExpr' and x.get('dk') == 'Field':
+                    out.add(x['d'])
+                    break
+    fx._released_fields = out
+    return out
+
+
 def takes_ownership(fx, callee_key, j, depth=0):
     """does the callee keep, free or hand on the pointer it receives as argument j?  (summary over its own facts; a callee
     without facts -- free, realloc, fclose, qsort -- is assumed to take it: never a reason for an alarm)"""
@@ -619,9 +747,12 @@ def takes_ownership(fx, callee_key, j, depth=0):
                     if l.get('vid') is not None:
                         vids.add(l['vid'])
                 else:
-                    res = True
+                    fld = [x.get('d') for x in f.walk(u['c'][0]) if x['k'] == 'MemberExpr' and x.get('dk') == 'Field']
+                    if not fld or fld[0] in released_fields(fx) or not f.file.startswith('src/'):
+                        res = True           # kept in a field the class releases (or in something that is not a plain member)
             elif k == 'Init' and u.get('init') is not None and isv(u['init']):
-                res = True
+                if u.get('field') in released_fields(fx) or not u.get('field'):
+                    res = True
             elif k == 'CXXNewExpr' and u.get('place') and any(p_ is not None and isv(p_) for p_ in u['place']):
                 res = True
             elif k in CALL_KINDS:
